@@ -81,6 +81,15 @@ theorem C06_refs_present_step (es : List Ev) (s s' : St) (e : Ev)
 theorem C06_double_release (a : ASt) (f f' : Nat → Bool) (r : Nat) :
     specRelease (specRelease a f r) f' r = specRelease a f r := release_twice a f f' r
 
+/-- **C06 (condition functions).** `ResetRoutine(k, conds…)` whose condition functions all reject the key
+(none is non-nil and accepts (key, data)) changes nothing; with no condition functions it is the plain
+`ResetRoutine(k)`. (`RestartRoutine`, `ResetAllRoutines`, `RestartAllRoutines` never change the key set.) -/
+theorem C06_reset_conds (a : ASt) (f : Nat → Bool) (k : Nat) (cs : List Cond) :
+    (specMatch a cs k = false → specStep a f (.resetRoutine k cs) = a) ∧
+    specStep a f (.resetRoutine k []) = renew a k := by
+  refine ⟨fun h => by simp [specStep, h], ?_⟩
+  simp [specStep, specMatch, condsMatch]
+
 /-- **C06, observable form.** Every observable trace of the model is accepted by the executable monitor
 `monC06o`: the key-set specification of `Spec.lean` as a knowledge automaton over what a history shows
 (per key `absent`, `present`, "removed with a delay in epoch `e`, or already gone", or `any`). It checks
@@ -133,11 +142,12 @@ theorem C07_obs_one_running_across_reset (es : List Ev) (s : St) (hr : model.run
 
 /-- **C07 (removal cancels).** In every reachable state an instance whose context is not cancelled
 belongs to the generation of the record stored under its key, and that record holds its cancel
-function; a context is set. Hence after the event that deletes the key (at once or by its timer)
-every instance of that generation is cancelled, and after `ClearContext` every instance is. -/
+function; a context is set and not cancelled. Hence after the event that deletes the key (at once or by
+its timer) every instance of that generation is cancelled, and after `ClearContext` — or after the root
+context that is installed was cancelled (`env cancelroot`) — every instance is. -/
 theorem removed_cancelled (es : List Ev) (s : St) (hr : model.run model.init es = some s)
     (g i : Nat) (y : G) (x : Inst) (hy : s.gens[g]? = some y) (hx : y.insts[i]? = some x) :
-    (¬ Alive s g → x.cancelled = true) ∧ (s.ctx = none → x.cancelled = true) := by
+    (¬ Alive s g → x.cancelled = true) ∧ (isLive s.ctx = false → x.cancelled = true) := by
   have h3 := inv3_reachable s ⟨es, hr⟩
   refine ⟨?_, ?_⟩
   · intro hd
@@ -149,7 +159,24 @@ theorem removed_cancelled (es : List Ev) (s : St) (hr : model.run model.init es 
   · intro hnc
     cases hc : x.cancelled with
     | true => rfl
-    | false => have := h3.ownc g y i x hy hx hc; simp [hnc] at this
+    | false => have := h3.ownc g y i x hy hx hc; rw [hnc] at this; cases this
+
+/-- **C07 (root context cancelled while installed).** After `env cancelroot` every instance's context is
+cancelled; the calls that look at the root context first (`SyncKeys`, `ResetRoutine`, `RestartRoutine` and the
+…All forms on a non-empty set) run as if no context were set (`preOp`). -/
+theorem cancelroot_cancels (s s' : St) (hs : model.step s .cancelroot = some s')
+    (g i : Nat) (y : G) (x : Inst) (hy : s'.gens[g]? = some y) (hx : y.insts[i]? = some x) :
+    x.cancelled = true := by
+  have hst : step s .cancelroot = some s' := hs
+  simp only [step] at hst
+  split at hst
+  · simp at hst; subst hst; exact allCancelled_cancelAll _ g y i x hy hx
+  · simp at hst
+
+theorem looked_at_ctx_is_not_cancelled (s : St) (k : Nat) (ks : List Nat) (b : Bool) (cs : List Cond) :
+    (preOp s (.syncKeys ks b)).ctx ≠ some 0 ∧ (preOp s (.resetRoutine k cs)).ctx ≠ some 0 ∧
+    (preOp s (.restartRoutine k cs)).ctx ≠ some 0 :=
+  ⟨dropDead_ctx s, dropDead_ctx s, dropDead_ctx s⟩
 
 /-- **C07 (removal cancels), observable form.** Every observable trace of the model is accepted by the
 executable monitor `monC07c` (= `monC07a` × `monC06o` + one check): whenever no call is in progress and the
@@ -215,17 +242,24 @@ theorem retry_pending_setKey_nostart (s : St) (k : Nat) (hp : Pending s k) :
 theorem retry_pending_sync_norestart (s : St) (ks : List Nat) (k : Nat) (hin : k ∈ ks) (hp : Pending s k) :
     Pending (execOp s (.syncKeys ks false)).1 k := retry_kept_sync_norestart s ks k hin hp
 
-theorem retry_pending_other_key (s : St) (k k' : Nat) (st : Bool) (hkk : k ≠ k') (hp : Pending s k) :
+theorem retry_pending_other_key (s : St) (k k' : Nat) (st : Bool) (cs : List Cond) (hkk : k ≠ k') (hp : Pending s k) :
     Pending (execOp s (.setKey k' st)).1 k ∧ Pending (execOp s (.removeKey k')).1 k ∧
-    Pending (execOp s (.restartRoutine k')).1 k ∧ Pending (execOp s (.resetRoutine k')).1 k :=
-  ⟨retry_kept_setKey_other s k k' st hkk hp, retry_kept_removeKey_other s k k' hkk hp,
-   retry_kept_restart_other s k k' hkk hp, retry_kept_reset_other s k k' hkk hp⟩
+    Pending (execOp s (.restartRoutine k' cs)).1 k ∧ Pending (execOp s (.resetRoutine k' cs)).1 k := by
+  refine ⟨retry_kept_setKey_other s k k' st hkk hp, retry_kept_removeKey_other s k k' hkk hp, ?_, ?_⟩
+  · simp only [execOp]
+    split
+    · exact retry_kept_restart_other s k k' hkk hp
+    · exact hp
+  · simp only [execOp]
+    split
+    · exact retry_kept_reset_other s k k' hkk hp
+    · exact hp
 
-/-- … and once the epoch has ended the timer's step is enabled and, with a context, starts a new
-instance (waiting for its predecessor, not cancelled). -/
+/-- … and once the epoch has ended the timer's step is enabled and, with a context that is not cancelled,
+starts a new instance (waiting for its predecessor, not cancelled). -/
 theorem retry_pending_fires (es : List Ev) (s : St) (hr : model.run model.init es = some s)
     (k e : Nat) (r : Rec) (hk : s.key k = some r) (hex : r.exited = true) (hd : r.deferRetry = some e)
-    (he : e < s.epoch) (hctx : s.ctx.isSome = true) :
+    (he : e < s.epoch) (hctx : isLive s.ctx = true) :
     ∃ s' r' i y x, model.step s (.timerRetry k) = some s' ∧ s'.key k = some r' ∧ r'.exited = false ∧
       r'.cur = some i ∧ s'.gens[r'.gen]? = some y ∧ y.insts[i]? = some x ∧ x.st = .waiting ∧
       x.cancelled = false :=
@@ -263,8 +297,8 @@ example : (model.run model.init (evs2 ++ [.advance, .timerRetry 1, .proceed 0 1,
 example : (model.run model.init [.config { rc := false, delay := false, retry := none },
     .inv 0 (.setContext (some 1) false), .exec 0, .ret 0 .unit,
     .inv 1 (.setKey 1 true), .exec 1, .ctor 1 1, .ret 1 (.dataExisted 1 false), .proceed 0 0, .cbin 0 0 0 1 1,
-    .inv 2 (.restartRoutine 1), .exec 2, .ret 2 (.existedReset true true),
-    .inv 3 (.restartRoutine 1), .exec 3, .ret 3 (.existedReset true true),
+    .inv 2 (.restartRoutine 1 []), .exec 2, .ret 2 (.existedReset true true),
+    .inv 3 (.restartRoutine 1 []), .exec 3, .ret 3 (.existedReset true true),
     .bail 0 1, .proceed 0 2]).isSome = false := by decide
 
 /-- C06-s2: the removal timer of key 1 has fired (epoch over) and its callback has not run yet; `SetKey(1,
@@ -281,8 +315,8 @@ private def d18Prefix : List Ev := [.config { rc := false, delay := false, retry
   .inv 0 (.setContext (some 1) false), .exec 0, .ret 0 .unit,
   .inv 1 (.setKey 1 true), .exec 1, .ctor 1 1, .ret 1 (.dataExisted 1 false), .proceed 0 0, .cbin 0 0 0 1 1,
   .nilnext 1,
-  .inv 2 (.resetRoutine 1), .exec 2, .ctor 1 2, .ret 2 (.existedReset true true),
-  .inv 3 (.resetRoutine 1), .exec 3, .ctor 1 3, .ret 3 (.existedReset true true)]
+  .inv 2 (.resetRoutine 1 []), .exec 2, .ctor 1 2, .ret 2 (.existedReset true true),
+  .inv 3 (.resetRoutine 1 []), .exec 3, .ctor 1 3, .ret 3 (.existedReset true true)]
 example : (model.run model.init (d18Prefix ++ [.proceed 0 1])).isSome = false := by decide
 example : (model.run model.init (d18Prefix ++ [.cbout 0 .canceled, .closeExit 0 0, .proceed 0 1, .cbin 1 0 1 1 3])).isSome = true := by
   decide
